@@ -355,7 +355,10 @@ func (h *NtfnsHandler) filterTxForImporting(tx *wire.MsgTx, blockMeta *txmgr.Blo
 	return rec, nil
 }
 
-func (h *NtfnsHandler) filterTx(tx *wire.MsgTx, blockMeta *txmgr.BlockMeta,
+// filterTx reads wallet state through rtx only: when a block is being applied
+// rtx is the write transaction of that block, so credits and pending
+// transactions written earlier in the same batch are visible.
+func (h *NtfnsHandler) filterTx(rtx mwdb.ReadTransaction, tx *wire.MsgTx, blockMeta *txmgr.BlockMeta,
 	recInCurBlk map[wire.Hash]*txmgr.TxRecord,
 	readyWallets map[string]struct{}) (bool, *txmgr.TxRecord, error) {
 
@@ -391,12 +394,7 @@ func (h *NtfnsHandler) filterTx(tx *wire.MsgTx, blockMeta *txmgr.BlockMeta,
 				} else {
 					// For connected block, it's unnecessary to go on checking
 					// if no output created by previous hash.
-					exist := false
-					mwdb.View(h.walletMgr.db, func(rtx mwdb.ReadTransaction) error {
-						exist = h.walletMgr.utxoStore.ExistCreditFromTx(rtx, &txIn.PreviousOutPoint.Hash)
-						return nil
-					})
-					if !exist {
+					if !h.walletMgr.utxoStore.ExistCreditFromTx(rtx, &txIn.PreviousOutPoint.Hash) {
 						continue
 					}
 				}
@@ -409,7 +407,7 @@ func (h *NtfnsHandler) filterTx(tx *wire.MsgTx, blockMeta *txmgr.BlockMeta,
 					return false, nil, err
 				}
 				if prevTx == nil {
-					prevTx, err = h.walletMgr.existsUnminedTx(&txIn.PreviousOutPoint.Hash)
+					prevTx, err = h.walletMgr.txStore.ExistUnminedTx(rtx, &txIn.PreviousOutPoint.Hash)
 					if err != nil {
 						if err != txmgr.ErrNotFound {
 							return false, nil, err
@@ -570,7 +568,7 @@ func (h *NtfnsHandler) filterBlock(dbtx mwdb.DBTransaction, readyWallets map[str
 	if len(readyWallets) > 0 {
 		recInCurBlk := make(map[wire.Hash]*txmgr.TxRecord)
 		for i, tx := range block.Transactions {
-			isRelevant, rec, err := h.filterTx(tx, blockMeta, recInCurBlk, readyWallets)
+			isRelevant, rec, err := h.filterTx(dbtx, tx, blockMeta, recInCurBlk, readyWallets)
 			if err != nil {
 				logging.CPrint(logging.WARN, "Unable to filter transaction",
 					logging.LogFormat{
@@ -1184,15 +1182,15 @@ func (h *NtfnsHandler) proccessReceivedTx(tx *wire.MsgTx) error {
 		logging.LogFormat{
 			"tx": tx.TxHash().String(),
 		})
-	var readyWallets map[string]struct{}
-	err := mwdb.View(h.walletMgr.db, func(rtx mwdb.ReadTransaction) (err error) {
-		readyWallets, err = h.getReadyWallets(rtx)
-		return
+	err := mwdb.View(h.walletMgr.db, func(rtx mwdb.ReadTransaction) error {
+		readyWallets, err := h.getReadyWallets(rtx)
+		if err != nil {
+			return err
+		}
+		_, _, err = h.filterTx(rtx, tx, nil, nil, readyWallets)
+		return err
 	})
 	if err != nil {
-		return err
-	}
-	if _, _, err := h.filterTx(tx, nil, nil, readyWallets); err != nil {
 		logging.CPrint(logging.WARN, "Unable to filter transaction",
 			logging.LogFormat{
 				"tx":  tx.TxHash().String(),
